@@ -98,7 +98,7 @@ class Session:
         return f"{base}#{n}"
 
     def check(self, kind: str, hyps: List[z3.ExprRef], goal: Any, line: int = 0, label: str = "",
-              expect_refuted: bool = False, want_model: bool = True) -> Obligation:
+              expect_refuted: bool = False, want_model: bool = True, timeout_ms: int = 0) -> Obligation:
         """Discharge `hyps |= goal`. Returns the obligation (status set)."""
         if isinstance(goal, bool):
             goal = z3.BoolVal(goal)
@@ -107,7 +107,7 @@ class Session:
         ob.formula = (str(z3.simplify(goal)) if z3.is_expr(goal) else str(goal))[:400]
         t0 = time.time()
         s = z3.Solver()
-        s.set("timeout", Z3_TIMEOUT_MS)
+        s.set("timeout", timeout_ms or (2000 if expect_refuted else Z3_TIMEOUT_MS))
         s.add(*hyps)
         s.add(z3.Not(goal))
         try:
@@ -124,8 +124,8 @@ class Session:
                 ob.model = _model_to_dict(s.model())
                 ob._z3model = s.model()  # type: ignore[attr-defined]
         else:
-            # second opinion
-            res = _cvc5_check(s.to_smt2().replace("(check-sat)", ""), CVC5_TIMEOUT_MS)
+            # second opinion (not for vacuity canaries: `unknown` is good enough there)
+            res = "unknown" if expect_refuted else _cvc5_check(s.to_smt2().replace("(check-sat)", ""), CVC5_TIMEOUT_MS)
             if res == "unsat":
                 ob.status, ob.backend = DISCHARGED, "cvc5"
             elif res == "sat":
